@@ -78,7 +78,44 @@ META = {
             "stream, not repeated here. step_panic_sites_concrete: the same on the concrete machine (concreteOps over the "
             "C03 heap model) in a CalleeOk state, with CodeLaws discharged (concreteLaws: CInv of the heap + ExtCodeLaws); "
             "PanicLaws stays a hypothesis there except isLambda_code (concrete_isLambda_code) — vararg_info and the "
-            "slot-index expects of CLOSURE/ENTER environment construction are not consequences of CInv. The Num model has genuine panic branches for division by an exact zero "
+            "slot-index expects of CLOSURE/ENTER environment construction are not consequences of CInv. "
+            "T06.6 CLOSED FOR THE MODELLED PART OF THE VM (Lemmas/NoPanic*.lean): step_never_panics_machine — for every "
+            "state reachable (Reaches: any number of instructions, collections anywhere) from an initial state of the REAL "
+            "concrete machine (run_one over concreteOps, run_gc = cgc) satisfying the bundled invariant VmOkP (heap-simulation "
+            "invariant GoodI, WF-stack over the value-typed verifier, PInv: an invariant since wave 7, so CalleeOk is no "
+            "longer a hypothesis) and the two new clauses NPInv, step never returns `panic m` except m = the MODEL's own fuel "
+            "guard in apply's list walk (100000; run_one's loop is unbounded, on a cyclic list it does not return: a hang, "
+            "not a panic). NPInv = HeapNP (every lambda cell: code containing VARARG has a formal; environment-map Argument "
+            "indices within the formals) and ContFits (every continuation cell's stack copy is no longer than the current "
+            "stack): a THEOREM-level invariant (npinv_step / contFits_step for all 16 opcodes through a generic heap-path "
+            "lemma step_hpath: the only continuation run_one creates is call/cc's copy of stack[0..=sp]; the stack never "
+            "shrinks, step_len_mono; npinv_gc; npinv_onDone / npinv_onError: Stack::clear and the error reset keep the "
+            "capacity) — this EXCLUDES the former residual site restore_continuation/split_at_mut. PanicLaws' facts about "
+            "modelled operations are theorems at the arguments the instruction uses (panicFacts_concrete): %ip designates a "
+            "lambda, VARARG's args.len()-1 (concrete_vararg_info), CLOSURE's build_closure_environment "
+            "(concrete_makeClosure_np: no IofArgument source so load_arg's bp-argc is never evaluated), ENTER's "
+            "build_lexical_environment (concrete_makeActivation_np: argc-arg from HeapNP, bp-(argc-arg) from WF-stack). "
+            "apply_guard_only_on_long_lists: the guard fires only if the cdr chain from apply's list argument runs through "
+            ">= 100000 pair cells of the heap (LongChain; a proper list that ends earlier never trips it: pushList_ends_np, "
+            "longChain_not_endsWithin). run_never_panics_machine / eval_never_panics_machine / "
+            "history_never_panics_machine lift it to run_count (any budget), one evaluation with its epilogues, and any "
+            "history of succeeding and failing evaluations (NPInv is carried from one evaluation to the next; VmOkP of each "
+            "job's prepared state is asked as in C07's *_closed theorems). REMAINING HYPOTHESES, all visible in the "
+            "statements: ExtLaws/ExtGood/ExtProc/ExtCodeLawsV (as C03/C13/C07), the new ExtNoPanic ext (the 142 generic "
+            "builtins — T06.2's subject —, eval's compiler and VPUSH do not panic on allocated value arguments of a GoodI "
+            "heap, create no continuation object longer than those there are, and only lambda objects satisfying the "
+            "VARARG/Argument clause; satisfiable: failingExt_noPanic), SizeBounded, and EnvSlots of the state examined "
+            "(EnvSlotsAlong for runs): the two slot-index expects of LexicalEnvironment::get/put in CLOSURE/ENTER — the "
+            "current environment has a slot for every IofEnvironment index of the lambda being closed over, a closure's "
+            "environment has one per environment-map entry. NOT proved as an invariant: it ties ep / closure environments to "
+            "code objects through the frame chain (saved EnvironmentPointer of every frame and continuation), which neither "
+            "WF-stack nor the heap invariants record; carried by the correspondence: the stream safe-side-conditions (C03) "
+            "evaluates np-lambda (HeapNP), np-cont-fits (ContFits) and np-env-slots (EnvSlots) on every real state (700 "
+            "quick / 3168 thorough, all ok; 19 CLOSURE and 37 ENTER states in the quick tier, deep-continuation scenarios "
+            "included). Model boundary noted there: heap.get_at_index(ep) with ep = usize::MAX (top-level code) is an `err` in "
+            "the model (total signatures, ConcreteHeap decision 4), a Rust index panic in the code — reached only if "
+            "top-level code closes over an IofEnvironment slot, which EnvSlots' premise envAt ep = some _ does not cover; "
+            "compile.rs never emits that (toplevel free variables are globals). The Num model has genuine panic branches for division by an exact zero "
             "that the Scheme-level wrappers guard; those guards are now theorems (scmDivide_noPanic, scmIntOp_noPanic). Known findings (not fixed): display, write on circular data and a circular value as the "
             "result of an evaluation recurse/loop without bound (stack overflow abort or non-termination); length of a "
             "self-containing VECTOR dies while the `expected pair` error copies its payload out of the heap (same unbounded "
@@ -117,7 +154,10 @@ assv_noPanic assoc_noPanic map_noPanic map_wf forEach_noPanic forEach_wf calleeL
 quotient_noPanic rem_noPanic modulo_noPanic scmIntOp_noPanic scmQuotient_noPanic scmRemainder_noPanic
 scmModulo_noPanic quotient_by_zero_panics
 isListTH_total isListTH_terminates isListTH_never_diverges circ_not_properList
-step_panic_sites step_never_panics concrete_isLambda_code step_panic_sites_concrete""".split()]
+step_panic_sites step_never_panics concrete_isLambda_code step_panic_sites_concrete
+concrete_vararg_info concrete_makeClosure_np concrete_makeActivation_np contFits_step step_never_panics_machine
+apply_guard_only_on_long_lists longChain_not_endsWithin run_never_panics_machine eval_never_panics_machine
+history_never_panics_machine failingExt_noPanic""".split()]
 
 CIRC = {"circ-cdr", "circ-self", "circ-car", "circ-vec", "circ-vl", "circ-lv"}
 REENTRANT = {"cont", "l-cont"}
